@@ -9,26 +9,9 @@ Proof.
   induction s as [|c s IH]; intros stack p ts H; cbn [lex_from] in H.
   - inversion H; subst. destruct p as [[r acc]|]; cbn; rewrite ?app_nil_r; reflexivity.
   - assert (START : forall stack0 pre ts0,
-      match stack0 with
-      | [] => None
-      | st :: _ =>
-          match first_rule (nth st tbl []) c with
-          | None => None
-          | Some r =>
-              if r_plus r then
-                match lex_from tbl stack0 (Some (r, [c])) s with Some ts => Some (pre ++ ts) | None => None end
-              else
-                match apply_action (r_act r) stack0 with
-                | None => None
-                | Some stack' =>
-                    match lex_from tbl stack' None s with
-                    | Some ts => Some (pre ++ (r_name r, [c]) :: ts)
-                    | None => None
-                    end
-                end
-          end
-      end = Some ts0 -> concat (map snd ts0) = concat (map snd pre) ++ c :: s).
-    { intros stack0 pre ts0 H0. destruct stack0 as [|st rest]; [discriminate|].
+      start_with tbl (fun stack1 p1 => lex_from tbl stack1 p1 s) c stack0 pre = Some ts0 ->
+      concat (map snd ts0) = concat (map snd pre) ++ c :: s).
+    { intros stack0 pre ts0 H0. unfold start_with in H0. destruct stack0 as [|st rest]; [discriminate|].
       destruct (first_rule (nth st tbl []) c) as [r|]; [|discriminate].
       destruct (r_plus r).
       - destruct (lex_from tbl (st :: rest) (Some (r, [c])) s) as [ts1|] eqn:E; [|discriminate].
